@@ -332,38 +332,57 @@ def C13(tier):
 
 def C15(tier):
     from . import rules, specrel
+    from .common import norm_detail
     c = Check("C15", tier)
-    rules.c15_readsets(c, tier)
+    syn_other = rules.c15_readsets(c, tier)
     specrel.c15_conservative(c, tier)
     # the implementation equals the reference for every option value (C06/C07/C08/C14 jobs)
     jobs, results = machine_jobs(tier, roots=[r for r in R.ENTRY_ROOTS if r.startswith("ParserConfig::")], kinds=("entry",))
     nondef, deflt = {}, {}
+    otherk, samek = {}, {}
+    decided = {}
     for j, r in zip(jobs, results):
         if not r or not r.get("ok"):
             c.violation("engine-failure|%s" % j["root"], {"rule": "engine-failure", "error": (r or {}).get("error")})
             continue
         for u in r.get("unanalysable", []):
             c.violation("unanalysable:%s|%s" % (u["what"], j["root"]), dict(u, job=j))
+        kind = root_kind(j["root"])
+        allowed = rules.REQ_FIELDS if kind == "request" else rules.RESP_FIELDS
+        decided.setdefault(j["root"], set()).update(r.get("options_decided", []))
         preset_on = tuple(sorted(k[4:] for k, val in (j.get("preset") or {}).items() if val))
         for v in r.get("violations", []):
+            k = (kind, v["rule"], norm_detail(v["detail"]))
+            for on in v.get("options_on") or [()]:
+                allon = tuple(sorted(set(on) | set(preset_on)))
+                # (ii) options of the other message kind: every input, accepted by the default or not
+                foreign = tuple(o for o in allon if o not in allowed)
+                (otherk if foreign else samek).setdefault(k, dict(v, job=j, options=allon, foreign=foreign))
             if v["rule"].startswith("spec:") or v["rule"].startswith("hygiene:") or v["rule"].startswith("zero-copy:"):
-                from .common import norm_detail
-                k = (root_kind(j["root"]), v["rule"], norm_detail(v["detail"]))
                 if v.get("default_alive") == [False]:
-                    continue  # only on inputs the default configuration rejects: outside C15's claim
+                    continue  # only on inputs the default configuration rejects: outside clause (i)
                 for on in v.get("options_on") or [()]:
                     allon = tuple(sorted(set(on) | set(preset_on)))
                     (nondef if allon else deflt).setdefault(k, dict(v, job=j, options=allon))
     for k, v in nondef.items():
         if k not in deflt:
             c.violation("config-dependent|%s|%s" % (k[1], k[2]), dict(v, note="deviation from the reference only under non-default options %s" % (v.get("options"),), rule="config-dependent:" + k[1]))
+    for k, v in otherk.items():
+        if k not in samek:
+            c.violation("other-kind-option|%s|%s|%s" % (k[0], k[1], k[2]),
+                        dict(v, note="a %s result differs from the reference only with option(s) %s, which are documented for the other message kind" % (k[0], list(v["foreign"])),
+                             rule="other-kind-option:" + k[1]))
+    c.coverage["option_fields_branched_on"] = {r: sorted(d) for r, d in decided.items()}
+    c.coverage["other_kind_fields_branched_on"] = {r: sorted(o for o in d if o not in (rules.REQ_FIELDS if root_kind(r) == "request" else rules.RESP_FIELDS)) for r, d in decided.items()}
     paths = sum(r["results"] for r in all_results(results))
     c.obligations += paths
     c.discharged += paths
     c.coverage["jobs"] = job_summary(jobs, results)
     c.coverage["explanation"] = ("(i) the reference grammars are conservative extensions of the default reference (checked on the references themselves "
-                                 "by product exploration) and the implementation equals the reference for every option value; (ii) the request cone reads only "
-                                 "request/shared option fields, the response cone only response/shared ones")
+                                 "by product exploration) and the implementation equals the reference for every option value; (ii) the reference of a message "
+                                 "kind ignores the other kind's options, the exploration decides an option lazily at the first branch that depends on it, and "
+                                 "no deviation from the reference may occur only with an other-kind option on (for any input, accepted by the default or not). "
+                                 "The syntactic option read-sets of the two cones are reported as coverage only: a read whose value is discarded decides nothing.")
     return c.finish()
 
 
